@@ -285,19 +285,19 @@ class Cache:
             if self.group_by:
                 return "join with a grouped table"
 
+            # Hidden columns count, too: they can still be referenced after the join.
             if (node.how == "full" or (node.child not in self.derived_from and node.how == "left")) and any(
-                types.is_const(self.cols[uid].dtype()) for uid in self.uuid_to_name.keys()
+                types.is_const(col.dtype()) for col in self.cols.values()
             ):
                 return "left / full join with a table containing a constant column"
 
             is_right = node.child not in self.derived_from
             if (node.how == "full" or (is_right and node.how == "left")) and not all(
-                null_for_null_input(self.cols[uid], node.right if is_right else node.child)
-                for uid in self.uuid_to_name.keys()
+                null_for_null_input(col, node.right if is_right else node.child) for col in self.cols.values()
             ):
                 return "left / full join with a table containing a column that is not null if all its inputs are null"
 
-            if any(self.cols[uid].ftype() == Ftype.WINDOW for uid in self.uuid_to_name.keys()):
+            if any(col.ftype() == Ftype.WINDOW for col in self.cols.values()):
                 return "join with a table containing window function expression"
 
             if any(
